@@ -269,7 +269,8 @@ def r03_7(prog, rep):
                         for x in T.walk(tm):
                             if x[0] == "call" and T.refname(x[1]) in readers:
                                 sites.append((T.refname(x[1]), readers[T.refname(x[1])]))
-    raises = any(pth.exit[0] == "raise" for pth in P.paths_of(prog, f)) or enforced
+    # ... and the comparison has a consequence: some method of the routine raises under a test over the required keys
+    raises = any(pth.exit[0] == "raise" and any(T.contains(g, has_req) for g, _ in pth.guards()) for c in prog.mro(fb) for m in c.methods.values() for pth in P.paths_of(prog, m))
     # the outcome is decided by the required-keys test alone: no path returns under the very test outcome that raises
     ps = P.paths_of(prog, f)
     on_raise = {(g, pol) for pth in ps if pth.exit[0] == "raise" for g, pol in pth.guards() if T.contains(g, has_req)}
@@ -354,6 +355,7 @@ def r03_7(prog, rep):
     # reads a TypedDict dunder (__required_keys__, __total__, __optional_keys__) reads it from the origin class
     DUNDERS = ("__required_keys__", "__total__", "__optional_keys__")
     raw_reads = []
+    bare_origin = []
     n_reads = 0
     for q, g in prog.functions.items():
         if not q.startswith(f"{C.INSP}.") or g.cls is not None:
@@ -376,9 +378,15 @@ def r03_7(prog, rep):
                     n_reads += 1
                     if subject in params:
                         raw_reads.append(f"{g.name}: {T.show(x)[:50]}")
+                    # typing.get_origin() of a class that is no alias is None: read without the `or obj` fallback, every
+                    # plain TypedDict answers from None (no required keys, total)
+                    if T.is_call_to(subject, "typing.get_origin") and subject[2] and subject[2][0] in params:
+                        bare_origin.append(f"{g.name}: {T.show(x)[:60]}")
     if n_reads:
         rep.check(not raw_reads, "R03.7", f"{C.INSP}", "", f"{n_reads} read(s) of a TypedDict dunder attribute go through the origin class", f"a TypedDict dunder is read from the annotation as given ({sorted(set(raw_reads))[:2]}): a parameterised generic TypedDict is an alias that forwards no dunder attribute, so Page[int] has no required keys (and is taken for total) -- unmarshal(Page[int], {{}}) returns {{}} where unmarshal(Page, {{}}) raises 'missing required keys'", detail="typeddict-dunder-of-alias")
-    rep.check(enforced and raises, "R03.7", fb.qualname, f.loc, "required TypedDict keys are checked before the mapping is built", "the structured routine never consults __required_keys__: for a TypedDict target, dict(**kwargs) accepts any subset of the fields — unmarshal(Movie, {}) == {} although `title` and `year` are required (dataclasses and named tuples reject the same input)", detail="typeddict-required")
+    if n_reads:
+        rep.check(not bare_origin, "R03.7", f"{C.INSP}", "", "the origin class is `get_origin(x) or x`: a class that is no alias is read itself", f"a TypedDict dunder is read from typing.get_origin(x) alone ({sorted(set(bare_origin))[:2]}): for a TypedDict class that is not parameterised get_origin() is None, the attribute is read off None, and no key is required -- unmarshal(Movie, {{}}) == {{}}", detail="typeddict-dunder-origin-or-self")
+    rep.check(enforced and raises, "R03.7", fb.qualname, f.loc, "required TypedDict keys are checked before the mapping is built", "the structured routine never consults __required_keys__ (or nothing is raised when keys are missing): for a TypedDict target, dict(**kwargs) accepts any subset of the fields — unmarshal(Movie, {}) == {} although `title` and `year` are required (dataclasses and named tuples reject the same input)", detail="typeddict-required")
 
 
 def run(prog: Program, rep: Report, tier: str):
